@@ -250,13 +250,23 @@ type AuthEventProvider interface {
 
 // AuthEvents is an implementation of AuthEventProvider backed by a map.
 type AuthEvents struct {
-	events  map[StateKeyTuple]PDU
-	roomIDs map[string]struct{}
+	events map[StateKeyTuple]PDU
 }
 
 // Valid verifies that all auth events are from the same room.
+// Only the events the provider currently holds count: an event that has been
+// replaced by AddEvent or removed by Clear no longer has a say.
 func (a *AuthEvents) Valid() bool {
-	return len(a.roomIDs) <= 1
+	roomID, first := "", true
+	for _, event := range a.events {
+		id := event.RoomID().String()
+		if first {
+			roomID, first = id, false
+		} else if id != roomID {
+			return false
+		}
+	}
+	return true
 }
 
 // AddEvent adds an event to the provider. If an event already existed for the (type, state_key) then
@@ -265,7 +275,6 @@ func (a *AuthEvents) AddEvent(event PDU) error {
 	if event.StateKey() == nil {
 		return fmt.Errorf("AddEvent: event %q does not have a state key", event.Type())
 	}
-	a.roomIDs[event.RoomID().String()] = struct{}{}
 	a.events[StateKeyTuple{event.Type(), *event.StateKey()}] = event
 	return nil
 }
@@ -306,8 +315,7 @@ func (a *AuthEvents) Clear() {
 // calling AddEvent().
 func NewAuthEvents(events []PDU) (*AuthEvents, error) {
 	a := AuthEvents{
-		events:  make(map[StateKeyTuple]PDU, len(events)),
-		roomIDs: make(map[string]struct{}),
+		events: make(map[StateKeyTuple]PDU, len(events)),
 	}
 	for _, e := range events {
 		if err := a.AddEvent(e); err != nil {
